@@ -265,13 +265,14 @@ def idle_timeout_expr(F, R):
     from symex import SymEx, term_str_v
     b = F.one(r'^v3::handshake::Handshake::ack$')
     ps = [p for p in SymEx(b, F).run() if p.end[0] == 'return' and p.ret and p.ret[0] == 'agg']
-    expr = None
+    exprs = []  # (path, expression of the keep-alive field on that path)
     for p in ps:
         for name, v in p.ret[3].items():
             if name in ('keepalive', 'idle_timeout', 'keep_alive'):
-                expr = v
-    if expr is None:
+                exprs.append((p, v))
+    if not exprs:
         raise AnchorLost('Handshake::ack: keepalive field of the returned HandshakeAck')
+    expr = exprs[-1][1]
 
     def ev(t, ka):
         k = t[0]
@@ -297,7 +298,18 @@ def idle_timeout_expr(F, R):
             op = t[1].replace('WithOverflow', '')
             if op == 'Div' and c == 0:
                 return None
+            if op in ('Eq', 'Ne', 'Gt', 'Lt', 'Ge', 'Le'):
+                return int({'Eq': a == c, 'Ne': a != c, 'Gt': a > c, 'Lt': a < c, 'Ge': a >= c, 'Le': a <= c}[op])
             return {'Shr': a >> c, 'Shl': a << c, 'Add': a + c, 'Sub': a - c, 'Mul': a * c, 'Div': a // c if c else None}.get(op)
+        if k == 'constx':
+            c_ = F.consts.get(t[1]) if isinstance(t[1], str) else None
+            return c_.get('v') if c_ and isinstance(c_.get('v'), int) else None
+        if k == 'call' and t[1].split('::')[-1] in ('map_or', 'unwrap_or', 'map') and t[2] and t[2][0][0] == 'agg' and t[2][0][1] == 'std::option::Option':
+            # `opt.map_or(default, Wrapper)` / `opt.unwrap_or(default)` on an Option whose variant is known on this path
+            o_ = t[2][0]
+            if o_[2] == 'None':
+                return ev(t[2][1], ka) if len(t[2]) > 1 and t[1].split('::')[-1] != 'map' else None
+            return ev(o_[3].get('0'), ka)
         if k == 'call':
             base = t[1].split('::')[-1]
             a = [ev(x, ka) for x in t[2]]
@@ -321,9 +333,27 @@ def idle_timeout_expr(F, R):
         return None
     vals = sorted(set([0, 1, 2, 3, 10, 59, 60, 61, 300, 21845, 21846, 32767, 32768, 43690, 43691, 43692, 65534, 65535]) | (set(range(0, 65536)) if R.tier == 'thorough' else set(range(0, 400))))
     bad = None
+    def path_for(ka):
+        # the path whose conditions on the keep-alive hold for this value (conditions on other things are ignored)
+        for p_, e_ in exprs:
+            ok_ = True
+            for t_, c_ in p_.conds:
+                v_ = ev(t_, ka) if t_[0] in ('bin', 'field', 'cast', 'call') else None
+                if v_ is None:
+                    continue
+                if (c_[0] == 'eq' and v_ != c_[1]) or (c_[0] == 'ne' and v_ in c_[1]):
+                    ok_ = False
+                    break
+            if ok_:
+                return e_
+        return expr
     for ka in vals:
-        v = ev(expr, ka)
+        expr_ka = path_for(ka)
+        v = ev(expr_ka, ka)
+        if v is None and ka == 0:
+            continue  # keep-alive 0 = the server's own default (a named constant): no bound to check
         if v is None:
+            expr = expr_ka
             bad = 'cannot evaluate %s' % term_str_v(expr)[:120]
             break
         want = min(ka + ka // 2, 65535)
